@@ -1,4 +1,5 @@
 """C06 — arrays: independent values with queue and dictionary behaviour."""
+import re
 from . import suite, execsuite, values
 from .propbase import *
 
@@ -6,38 +7,67 @@ KEYS = ["0", "1", "2", "5", "\"k\"", "\"other\"", "true", "false", "null", "myst
 
 
 def histories(rng, n):
+    """operation histories over up to four array variables copied from one another; the generator
+    tracks which cells hold arrays so that their contents can be printed at the end"""
     out = []
-    names = ["A", "B", "C", "D"]
+    names = ["Apex", "Bee", "Cee", "Dee"]
     for _ in range(n):
-        lines = ["rock A with 1, 2, 3", "let A at \"k\" be \"v\""]
-        live = ["A"]
+        lines = ["rock Apex with 1, 2, 3", "let Apex at \"k\" be \"v\""]
+        live = ["Apex"]
+        nested = {"Apex": []}          # keys (as source text) of cells known to hold arrays
+        size = {"Apex": 3}
         for _ in range(rng.randint(4, 12)):
             c = rng.random()
             x = rng.choice(live)
-            if c < 0.2 and len(live) < 4:
+            if c < 0.22 and len(live) < 4:
                 y = [m for m in names if m not in live][0]
                 how = rng.random()
                 if how < 0.4:
                     lines.append(f"put {x} into {y}")
+                    nested[y] = list(nested[x]); size[y] = size[x]
                 elif how < 0.7:
-                    lines.append(f"let {y} at {rng.choice(KEYS)} be {x}")
+                    k = rng.choice(KEYS)
+                    lines.append(f"let {y} at {k} be {x}")
+                    nested[y] = [k]; size[y] = 0
                 else:
                     lines += [f"Keep{y} takes P", f"rock P with \"fromcallee\"", "give back P", "", f"put Keep{y} taking {x} into {y}"]
+                    nested[y] = list(nested[x]); size[y] = size[x] + 1
                 live.append(y)
             elif c < 0.4:
-                lines.append(f"let {x} at {rng.choice(KEYS)} be {rng.choice(['9', chr(34) + 's' + chr(34), 'mysterious', x])}")
+                k = rng.choice(KEYS)
+                v = rng.choice(['9', '"s"', 'mysterious', x])
+                lines.append(f"let {x} at {k} be {v}")
+                if v == x and k not in nested[x]:
+                    nested[x].append(k)
+                elif v != x and k in nested[x]:
+                    nested[x].remove(k)
             elif c < 0.5:
-                lines.append(f"let {x} at {rng.choice(KEYS[:4])} at {rng.choice(KEYS[:6])} be {rng.randint(10, 99)}")
+                k = rng.choice(["7", "8", '"deep"'])
+                lines.append(f"let {x} at {k} at {rng.choice(KEYS[:6])} be {rng.randint(10, 99)}")
+                if k not in nested[x]:
+                    nested[x].append(k)
             elif c < 0.65:
-                lines.append(f"rock {x} with {rng.randint(10, 99)}" + (f", {x}" if rng.random() < 0.3 else ""))
+                if rng.random() < 0.4:
+                    lines.append(f"rock {x} with {rng.randint(10, 99)}, {x}")
+                    nested[x].append(str(size[x] + 1))
+                    size[x] += 2
+                else:
+                    lines.append(f"rock {x} with {rng.randint(10, 99)}")
+                    size[x] += 1
             elif c < 0.8:
                 lines.append(rng.choice([f"roll {x}", f"roll {x} into T", f"say roll {x}"]))
+                nested[x] = [str(int(k) - 1) if k.isdigit() and int(k) > 0 else k for k in nested[x] if k != "0" and not re.match(r"^\d+\.", k)]
+                size[x] = max(0, size[x] - 1)
             elif c < 0.9:
                 lines.append(f"say {x} at {rng.choice(KEYS)}")
             else:
-                lines.append(rng.choice([f"say {x} plus 1", f"say {x} is 3", f"say {x} times 2", f"build {x} up", f"say {x} is greater than 2"]))
+                lines.append(rng.choice([f"say {x} plus 1", f"say {x} is 3", f"say {x} times 2", f"say {x} is greater than 2", f"say {x} is {rng.choice(live)}"]))
         for v in live:
-            lines += [f"say {v}", f"say {v} at 0", f"say {v} at \"k\""]
+            lines += [f"say {v}", f"say {v} at 0", f"say {v} at \"k\"", f"say {v} at 1", f"say {v} at 2", f"say {v} at 3"]
+        for v in live:
+            for k in nested[v]:
+                if re.match(r"^[0-9]+$|^\"", k) or k in ("true", "false", "null", "mysterious"):
+                    lines += [f"say {v} at {k}", f"say {v} at {k} at 0", f"say {v} at {k} at 1", f"say {v} at {k} at 2", f"say {v} at {k} at \"k\""]
         out.append({"src": "\n".join(lines) + "\n", "meta": "history"})
     return out
 
